@@ -233,6 +233,10 @@ class Constructor:
                 raise RecognitionError(
                         '{}\n{}'.format(key_node.start_mark, msg))
 
+            if key in ('self', '_yatiml_extra'):
+                # an extra attribute that happens to have this name
+                continue
+
             if key in argspec.args and key in argspec.annotations:
                 if not self.__type_matches(value, argspec.annotations[key]):
                     value_node = [
